@@ -71,6 +71,44 @@ def run_driver(binary, seed, n):
     return out, log
 
 
+def run_handshake(binary, seed, n):
+    tmp = os.path.join(vlib.BUILD, 'c19_hs_%d.json' % os.getpid())
+    rc, log = vlib.run([binary, '--seed', str(seed), '--hs-n', str(n), '--hs-out', tmp])
+    if rc != 0:
+        return None, log
+    out = json.load(open(tmp))
+    os.remove(tmp)
+    return out, log
+
+
+HS_HEADER = 'From VDrv Require Import Handshake.\nOpen Scope N_scope.\n'
+KNOWN_WIRING = 'NewRDMADrainRspToDriver'
+
+
+def system_run():
+    """atax with unified memory on two GPUs, timing platform: the only whole-system path
+    through driver handshake + command processor + both PMCs.  Returns (status, detail):
+    'pass' | 'known' (CommandProcessor.Driver never set: nil dereference) | 'fail' | 'skip'."""
+    out = os.path.join(vlib.BUILD, 'bin' + vlib._repo_tag(), 'atax_c19')
+    os.makedirs(os.path.dirname(out), exist_ok=True)
+    with vlib.Lock('gobuild' + vlib._repo_tag()):
+        rc, log = vlib.run([vlib.go_bin(), 'build', '-o', out, './amd/samples/atax'], cwd=vlib.REPO, env=vlib.go_env(), timeout=900)
+    if rc != 0:
+        return 'skip', log[-1500:]
+    d = os.path.join(vlib.BUILD, 'c19_sys_%d' % os.getpid())
+    os.makedirs(d, exist_ok=True)
+    try:
+        rc, log = vlib.run([out, '-x=64', '-y=64', '-gpus=1,2', '-timing', '-use-unified-memory', '-verify'], cwd=d, timeout=120)
+    finally:
+        import shutil
+        shutil.rmtree(d, ignore_errors=True)
+    if rc == 0 and 'Passed!' in log:
+        return 'pass', ''
+    if KNOWN_WIRING in log and 'nil pointer' in log:
+        return 'known', ''
+    return 'fail', log[-2500:]
+
+
 DRV_HEADER = 'From VDrv Require Import Migration.\nOpen Scope N_scope.\n'
 
 
@@ -111,12 +149,14 @@ def main(argv):
     rep.checker_cmd = 'make -C coq props/C19.vo && coqc props/C19.v (Print Assumptions) && coqc cases/C19/s*.v (vm_compute mismatches)'
     rep.trusted = ['Coq 8.16.1 kernel + vm_compute',
                    'hand-written model coq/mem/Pmc.v of amd/timing/pagemigrationcontroller/pmc.go (tied by sampling, not verified)',
-                   'hand-written model coq/drv/Migration.v of Driver.preparePageForMigration / allocatePageWithGivenVAddr / regular device free list / vm.PageTable (tied by sampling through a verif-tagged export hook); the driver counter automaton (dq) is a reading of sendMigrationReqToCP/processPageMigrationRspFromCP and is not tied',
+                   'hand-written model coq/drv/Migration.v of Driver.preparePageForMigration / allocatePageWithGivenVAddr / regular device free list / vm.PageTable (tied by sampling through a verif-tagged export hook)',
+                   'hand-written model coq/drv/Handshake.v of the migration part of Driver.Tick (tied by sampling: the real driver with the harness playing MMU and command processors)',
                    'Go harness harness/cmd/c19 (stub connection, network and byte-array memories, ID/port renumbering, store monitor)',
                    'akita port = two bounded FIFOs of capacity 1; message IDs modelled as (creator, counter) pairs; addresses do not wrap at 2^64']
     rep.assumptions = ['theorems: the environment of the two controllers is any finite sequence of ticks, transfers, deliveries (any order), memory services (any order) and refusals; '
                        'migration requests go to one controller at a time per source (the driver sends one PageMigrationReqToCP at a time), have page sizes that are multiples of 64 and name the other controller',
-                       'the shipped timing platform does not wire the PageMigrationController (the wiring in timingconfig is commented out), so there is no whole-system run; the tie is component level',
+                       'theorem pmc_bidirectional: requests to either controller at any time, sources inside / destinations outside the read-only region of each memory; theorem pmc_liveness: fair schedules (every canonical action at least once per round), page size >= 64',
+                       'whole-system run: atax -gpus=1,2 -timing -use-unified-memory (needs the platform wiring fix; unavailable while C01 finding unified-memory-timing-multi-gpu is open)',
                        'sampled schedules only decide whether the real controllers still behave like the model']
     thorough = vlib.tier() == 'thorough'
     n = 1500 if thorough else 120
@@ -125,7 +165,8 @@ def main(argv):
     if '--replay' in argv:
         replay_file = argv[argv.index('--replay') + 1]
         try:
-            if 'driver_case' in json.load(open(replay_file)):
+            _o = json.load(open(replay_file))
+            if 'driver_case' in _o or 'handshake_case' in _o or ('case' not in _o and 'cases' not in _o and not isinstance(_o, list)):
                 replay_file = None   # driver scenarios are regenerated from the seed: run the whole check
         except (OSError, ValueError):
             pass
@@ -201,6 +242,56 @@ def main(argv):
                           text='driver model/implementation mismatch at call %d' % i)
             return rep.finish()
 
+    # ---- driver handshake (drain - shootdown - migrate - restart) on the real driver
+    if not replay_file:
+        hcases, hlog = run_handshake(binary, vlib.seed(), 600 if thorough else 96)
+        if hcases is None:
+            rep.obligation('harness run (handshake scenarios)', False)
+            rep.violation({'broken': 'handshake scenarios failed to run', 'log': hlog[-4000:]}, nofail=True)
+            return rep.finish()
+        direct = [c for c in hcases if not c.get('engine')]
+        eng = [c for c in hcases if c.get('engine')]
+        okh, hmism, hclog = vlib.eval_cases(PROP, HS_HEADER, [c['coq'] for c in direct], shard_size=20,
+                                            checker='hmismatches', ty='hcase')
+        rep.obligation('correspondence: %d driver handshakes (%d events) evaluated by the model' %
+                       (len(direct), sum(len(c['events']) for c in direct)), okh and not hmism)
+        hbad = [c for c in hcases if c.get('viol')]
+        rep.coverage.update({'handshake_cases': len(direct), 'handshake_engine_cases': len(eng),
+                             'handshake_requests_answered': sum(c['done'] for c in hcases),
+                             'handshake_model_mismatches': len(hmism), 'handshake_monitor_failures': len(hbad)})
+        if hbad:
+            c = dict(hbad[0])
+            c.pop('coq', None)
+            rep.violation({'property': PROP, 'what': c['viol'], 'handshake_case': c}, text='handshake: ' + c['viol'])
+            return rep.finish()
+        if hmism or not okh:
+            i, k = hmism[0] if hmism else (0, 0)
+            c = dict(direct[i]) if direct else {}
+            c.pop('coq', None)
+            rep.violation({'property': PROP, 'broken': 'correspondence between coq/drv/Handshake.v and the migration handshake of driver.go: '
+                           'observation %d of scenario %d differs; theorem handshake_order no longer speaks about this code' % (k, i),
+                           'handshake_case': c, 'log': hclog[-2000:]}, nofail=True,
+                          text='handshake model/implementation mismatch at scenario %d event %d' % (i, k))
+            return rep.finish()
+        # ---- the one whole-system path
+        st, detail = system_run()
+        rep.coverage['system_level_run'] = st
+        if st == 'known':
+            # this is C01's registered finding unified-memory-timing-multi-gpu; while it is open there is no
+            # whole-system path for C19 (the fix is commit "fix: timing platform tells each command processor ...")
+            c01 = [k for k in vlib.load_known() if k.get('property') == 'C01' and k.get('key') == 'unified-memory-timing-multi-gpu'
+                   and k.get('status', 'open') == 'open']
+            if c01:
+                rep.coverage['system_level_run'] = 'unavailable: platform not wired (C01 finding unified-memory-timing-multi-gpu is open)'
+            else:
+                rep.violation({'property': PROP, 'what': 'atax -gpus=1,2 -timing -use-unified-memory panics: CommandProcessor.Driver is not set'},
+                              text='whole-system page migration run panics (platform wiring regressed)')
+                return rep.finish()
+        elif st == 'fail':
+            rep.violation({'property': PROP, 'what': 'atax -x=64 -y=64 -gpus=1,2 -timing -use-unified-memory -verify failed', 'log': detail},
+                          text='whole-system page migration run failed')
+            return rep.finish()
+
     # ---- property monitor on what the implementation did
     bad = [(i, monitor(c)) for i, c in enumerate(cases)]
     bad = [(i, m) for i, m in bad if m]
@@ -233,7 +324,6 @@ def main(argv):
         'stalled_completions': sum(1 for c in cases if c['class'] == 'stall' and sum(c['completed']) >= 3),
         'quiescent_cases': sum(1 for c in cases if c['quiescent']),
         'hostile_cases_with_misrouting_effect': len(misrouted),
-        'system_level_runs': 0,
         'model_mismatches': len(mism), 'monitor_failures': len(bad),
     })
     rep.samples = [{'class': c['class'], 'msize': c['msize'], 'accepted': c['accepted'], 'completed': c['completed'],
